@@ -20,7 +20,7 @@ def sh(cmd, cwd, **kw):
 try:
     res = {}
     demo_src = None
-    place = meta.get("demo_placement")
+    place = (meta.get("demo_placement") or "").split()[0] if meta.get("demo_placement") else None
     for fn in os.listdir(seed):
         if fn.endswith(".go"):
             demo_src = os.path.join(seed, fn)
